@@ -584,13 +584,14 @@ def run_unit(seed=None, unit=None, tier="quick", stats=None):
             return stop
 
 
+        r_eff = r if r < n else 0  # sweep runs repeat schedule 0 (and replay as schedule 0)
         sim, reqs, results, status, knobs, al, stops = run_incremental(
             scn, st, stop_factory=factory, lenient=True,
             force_early=(True if focus in ("earlyclose", "streamfail")
-                         else r != 2 if focus == "nullroot"
-                         else True if focus == "background" and r == 1
-                         else False if focus == "abortstream" and r != 1 else None),
-            force_capacity=(1, 2)[r % 2] if focus == "abortstream" else None)
+                         else r_eff != 2 if focus == "nullroot"
+                         else True if focus == "background" and r_eff == 1
+                         else False if focus == "abortstream" and r_eff != 1 else None),
+            force_capacity=(1, 2)[r_eff % 2] if focus == "abortstream" else None)
         bump(stats, "counts", "execs", len(reqs))
         # Work the executor settles in the background is by design left running (and the hook
         # waits for it). Stalled externals that only such work still waits for are released
